@@ -93,6 +93,10 @@ type BitAnalyzer struct {
 	// AssumeFn is the same for families of sources (e.g. every call of a helper
 	// whose result range the rule has established).
 	AssumeFn func(src string) (int, bool)
+	// IA/Ctx: when set, the value range an opaque source is known to have at block
+	// Ctx (from dominating comparisons) bounds its significant bits.
+	IA  *IntervalAnalyzer
+	Ctx *ssa.BasicBlock
 	// Opaque lets a rule name calls that should be treated as sources of their
 	// own (default: every call is an opaque source named by its path).
 }
@@ -140,6 +144,17 @@ func (a *BitAnalyzer) opaque(v ssa.Value) BitVec {
 	if a.AssumeFn != nil {
 		if n, ok := a.AssumeFn(src); ok && n < lim {
 			lim = n
+		}
+	}
+	if a.IA != nil && a.Ctx != nil {
+		if iv := a.IA.At(v, a.Ctx); iv.Known && iv.Lo >= 0 {
+			n := 0
+			for x := iv.Hi; x > 0; x >>= 1 {
+				n++
+			}
+			if n < lim {
+				lim = n
+			}
 		}
 	}
 	for i := range out {
